@@ -84,6 +84,10 @@ func run(id, tier string) int {
 		}
 		self, _ := os.Executable()
 		for _, name := range order {
+			// diagnostic runs of a single role (never used by the registered commands)
+			if only := os.Getenv("VERIF_ONLY_ROLE"); only != "" && only != name {
+				continue
+			}
 			role := p.Roles[name]
 			bin := self
 			if role.Race {
